@@ -264,6 +264,9 @@ class Translator:
             "math.sqrt": sp.sqrt, "np.sqrt": sp.sqrt, "sqrt": sp.sqrt,
             "np.tanh": sp.tanh, "math.tanh": sp.tanh, "math.atanh": sp.atanh, "np.arctanh": sp.atanh,
             "np.sin": sp.sin, "math.sin": sp.sin, "np.cos": sp.cos, "math.cos": sp.cos,
+            "np.sinh": sp.sinh, "math.sinh": sp.sinh, "np.cosh": sp.cosh, "math.cosh": sp.cosh,
+            "np.arctan": sp.atan, "math.atan": sp.atan, "np.square": (lambda x: x**2), "np.reciprocal": (lambda x: 1 / x),
+            "np.expm1": (lambda x: sp.exp(x) - 1), "np.log1p": (lambda x: sp.log(1 + x)),
             "np.sign": sp.sign, "np.abs": sp.Abs, "abs": sp.Abs, "np.fabs": sp.Abs, "math.fabs": sp.Abs,
             "float": lambda x: x, "int": lambda x: x, "np.float64": lambda x: x, "np.asarray": lambda x: x, "np.array": lambda x: x,
         }
@@ -424,10 +427,15 @@ def _normalise(x):
     return x
 
 
-def _rand_point(symbols, rng, domains):
+def _rand_point(symbols, rng, domains, scale=1):
     pt = {}
     for s in sorted(symbols, key=lambda t: t.name):
         lo, hi = domains.get(s.name, (None, None))
+        if lo is None and scale != 1 and not s.is_integer and rng.random() < 0.5:
+            # tail probe: some symbols far from the unit box (clip/min/max regions)
+            mag = sp.Rational(rng.randint(1000, 3500), 1000) * scale
+            pt[s] = mag if (s.is_positive or rng.random() < 0.5) else -mag
+            continue
         if lo is None:
             if s.is_positive:
                 lo, hi = sp.Rational(1, 4), sp.Rational(7, 2)
@@ -465,8 +473,8 @@ def same(a, b, domains: dict | None = None, trials: int = 12, seed: int = 0):
     rng = random.Random(seed)
     # numeric witness first (cheap, and gives a concrete counter-example)
     agree = 0
-    for _ in range(trials):
-        pt = _rand_point(syms, rng, domains)
+    for k in range(trials + 8):
+        pt = _rand_point(syms, rng, domains, scale=1 if k < trials else (20 if k % 2 else 400))
         try:
             va = complex(sp.N(a.subs(pt), 30))
             vb = complex(sp.N(b.subs(pt), 30))
@@ -539,3 +547,86 @@ def sympy_identity_param(prog, owner_init, param: str, stores: dict[str, ast.exp
     if v == DIFFERENT:
         return False, f"round trip maps {param} to `{sp.simplify(got)}` ({w})"
     return None
+
+
+# -------------------------------------------------------------- monotonicity domain
+_INCREASING = (sp.tanh, sp.exp, sp.log, sp.atanh, sp.atan, sp.sinh, sp.asinh)
+
+
+def _sign(c):
+    c = sp.sympify(c)
+    if c.is_positive:
+        return 1
+    if c.is_negative:
+        return -1
+    if c.is_zero:
+        return 0
+    try:
+        val = sp.N(c, 30)
+        if val.is_real and not c.free_symbols:
+            return 1 if val > 0 else (-1 if val < 0 else 0)
+    except Exception:
+        pass
+    return None
+
+
+def monotone(expr, var) -> str:
+    """Abstract monotonicity of ``expr`` in ``var``: '+' non-decreasing, '-' non-increasing,
+    '0' constant, '?' unknown.  Structural rules only (sums, products with a sign-definite
+    coefficient, increasing elementary functions, powers with constant exponent of positive base)."""
+    expr = sp.sympify(expr)
+    if var not in expr.free_symbols:
+        return "0"
+    if expr == var:
+        return "+"
+    flip = {"+": "-", "-": "+", "0": "0", "?": "?"}
+    if isinstance(expr, sp.Add):
+        res = "0"
+        for a in expr.args:
+            m = monotone(a, var)
+            if m == "?":
+                return "?"
+            if m == "0":
+                continue
+            if res == "0":
+                res = m
+            elif res != m:
+                return "?"
+        return res
+    if isinstance(expr, sp.Mul):
+        dep = [a for a in expr.args if var in a.free_symbols]
+        coef = sp.Mul(*[a for a in expr.args if var not in a.free_symbols])
+        s = _sign(coef)
+        if s is None:
+            return "?"
+        if s == 0:
+            return "0"
+        if len(dep) == 1:
+            m = monotone(dep[0], var)
+        else:
+            # product of several var-dependent factors: all positive and monotone the same way
+            ms = [monotone(d, var) for d in dep]
+            if all(d.is_positive or d.is_nonnegative for d in dep) and len(set(ms)) == 1 and ms[0] in "+-":
+                m = ms[0]
+            else:
+                return "?"
+        return m if s > 0 else flip[m]
+    if isinstance(expr, sp.Pow):
+        b, e = expr.args
+        if var not in e.free_symbols:
+            se = _sign(e)
+            if se is None or not (b.is_positive or b.is_nonnegative):
+                return "?"
+            m = monotone(b, var)
+            return m if se > 0 else flip[m]
+        if var not in b.free_symbols:
+            # b**e(v) = exp(e·log b)
+            sb = _sign(sp.log(b)) if b.is_positive else None
+            if sb is None:
+                return "?"
+            m = monotone(e, var)
+            return m if sb > 0 else flip[m]
+        return "?"
+    if isinstance(expr, sp.Function) and isinstance(expr, _INCREASING) and len(expr.args) == 1:
+        return monotone(expr.args[0], var)
+    return "?"
